@@ -22,10 +22,11 @@ def component_error_message(component_path: List[str]) -> Generator[None, None, 
 
         # Access the exception's message, see https://stackoverflow.com/a/75549200/9788634
         if len(err.args) and err.args[0] is not None:
-            if not components:
-                orig_msg = str(err.args[0])
-            else:
-                orig_msg = str(err.args[0]).split("\n", 1)[-1]
+            orig_msg = str(err.args[0])
+            # Remove the prefix line that was added when the error passed an inner component.
+            # NOTE: The first line of the user's own (multi-line) message must be kept.
+            if getattr(err, "_djc_message_prefixed", False):
+                orig_msg = orig_msg.split("\n", 1)[-1]
         else:
             orig_msg = str(err)
 
@@ -35,6 +36,7 @@ def component_error_message(component_path: List[str]) -> Generator[None, None, 
         prefix = f"An error occured while rendering components {comp_path}:\n"
 
         err.args = (prefix + orig_msg,)  # tuple of one
+        err._djc_message_prefixed = True  # type: ignore[attr-defined]
 
         # `from None` should still raise the original error, but without showing this
         # line in the traceback.
